@@ -123,11 +123,11 @@ func New(config ...Config) fiber.Handler {
 		// TODO(allocation optimization): try to minimize the allocation from 2 to 1
 		key := cfg.KeyGenerator(c) + "_" + requestMethod
 
-		// Get entry from pool
-		e := manager.get(key)
-
 		// Lock entry
 		mux.Lock()
+
+		// Get entry from pool (under the lock: the entry must not be expired and removed by a concurrent request in between)
+		e := manager.get(key)
 
 		// Get timestamp
 		ts := atomic.LoadUint64(&timestamp)
